@@ -24,6 +24,11 @@ CHECKS = {
          "Thousands of random well-formed programs (7 profiles, heavy sharing, 1-3 outputs, all op families of the quantifier) are built through the public API, passed through deduplicate and generate_loopy, compiled and executed on 1-2 input sets; every output's shape, declared dtype and values are compared with NumPy (exact for int/bool; scale-aware tolerance from randomised-rounding shadow runs otherwise); any exception on an in-fragment program is a violation; output/operand order variants must satisfy the same oracle. Violations are shrunk and keyed by the minimal program's signature.",
          "Trusts NumPy, gcc -O1 without contraction, and loopy's C code generator except for constructs listed in DESIGN.md §8 where the kernel-level interpreter agrees with NumPy and the C text is demonstrably mis-printed. Compositions never generated are not observed.",
          "DESIGN.md §3 C01"),
+ "C14": ("exploration",
+         "differential runtime oracle: generated NumPy-like Python program executed with real NumPy vs a pure-NumPy shadow of the same program; argument/bound-data monitors",
+         "Tens of thousands of random static-shape programs go through generate_numpy_like with real NumPy as the array module; generation may refuse with a not-supported error (counted), otherwise the call must succeed, every output must have NumPy's shape and values (exact for int/bool, Monte-Carlo-arithmetic tolerance otherwise), the function's parameters must be user input / bound names only and bound values must be the wrapped objects, unmodified.",
+         "Real NumPy stands in for the NumPy-compatible module; JAX is not installed, so jax-specific behaviour is not observed. Result-dtype-only deviations are counted, not judged (they follow from C03 findings).",
+         "DESIGN.md §3 C14"),
 }
 
 NOT_YET = {
